@@ -369,7 +369,7 @@ fn rows_control_source() -> Vec<Row> {
         get = |s| s.build_depends().map(|r| r.to_string()), want = |x| Some(x)));
     v.push(str_row!(csrc, "standards_version", "Standards-Version", "3.9.8", ["4.6.0", "4.7.0.1"], set_standards_version, standards_version));
     v.push(csrc!("homepage", "Homepage", "http://old.example.net/", clear = false,
-        values = ["https://example.com/".to_string(), "https://example.org/path?q=1".to_string()],
+        values = ["https://example.com/".to_string(), "https://example.org/path?q=1".to_string(), "https://example.com/project/".to_string(), "https://example.com:8080/a/b/#frag".to_string()],
         set = |s, x| s.set_homepage(&x.parse::<url::Url>().unwrap()), clear_set = |_s| (), clear_want = "None",
         get = |s| s.homepage().map(|u| u.to_string()), want = |x| Some(x)));
     v.push(str_row!(csrc, "vcs_git", "Vcs-Git", "https://old.example.com/r.git", ["https://salsa.debian.org/foo/bar.git", "https://example.com/r.git -b debian/sid"], set_vcs_git, vcs_git));
@@ -430,7 +430,7 @@ fn rows_control_binary() -> Vec<Row> {
         get = |s| s.essential(), want = |x| x));
     v.push(optstr_row!(cbin, "description", "Description", "old short\nold long 1\nold long 2\nold long 3", ["a short description", "short line\nlong text line 1\n.\nlong text line 2"], set_description, description));
     v.push(cbin!("homepage", "Homepage", "http://old.example.net/", clear = false,
-        values = ["https://example.com/".to_string(), "https://example.org/path?q=1".to_string()],
+        values = ["https://example.com/".to_string(), "https://example.org/path?q=1".to_string(), "https://example.com/project/".to_string(), "https://example.com:8080/a/b/#frag".to_string()],
         set = |s, x| s.set_homepage(&x.parse::<url::Url>().unwrap()), clear_set = |_s| (), clear_want = "None",
         get = |s| s.homepage().map(|u| u.to_string()), want = |x| Some(x)));
     v
@@ -518,7 +518,7 @@ fn rows_apt_package() -> Vec<Row> {
         get = |s| s.priority(), want = |x| Some(x)));
     v.push(str_row!(apkg, "description", "Description", "old short\nold long 1\nold long 2\nold long 3", ["a short description", "short line\nlong text line 1\n.\nlong text line 2"], set_description, description));
     v.push(apkg!("homepage", "Homepage", "http://old.example.net/", clear = false,
-        values = ["https://example.com/".to_string(), "https://example.org/path?q=1".to_string()],
+        values = ["https://example.com/".to_string(), "https://example.org/path?q=1".to_string(), "https://example.com/project/".to_string(), "https://example.com:8080/a/b/#frag".to_string()],
         set = |s, x| s.set_homepage(&x.parse::<url::Url>().unwrap()), clear_set = |_s| (), clear_want = "None",
         get = |s| s.homepage().map(|u| u.to_string()), want = |x| Some(x)));
     v.push(str_row!(apkg, "source", "Source", "oldsrc", ["hello", "hello (1.0-1)"], set_source, source));
